@@ -31,7 +31,7 @@ _C13_BOUNDS = ("source = base mesh (B_LOWDIM: 5V/5E/1F with a dangling and a dup
 PROPS["C13"] = dict(
   jobs=[
     dict(name="c13-indep", harness="C13_copy.cpp", entries=["harness_c13"], units=C13_UNITS, unwind=26, unwindset=["strlen.0:64", "bcmp.0:64"], eh=False, checks="mem", object_bits=13, witness_any=True,
-         shards={"quick": _c13_shards([1], [0], [B_LOWDIM], [1], chunks=_C13_QUICK_CHUNKS, level1=False),
+         shards={"quick": _c13_shards([1], [0], [B_LOWDIM], [1], chunks=_C13_QUICK_CHUNKS, level1=False) + _c13_shards([1], [2], [B_LOWDIM], [1], chunks=[13, 18, 23, 24, 25], level1=False),
                  "thorough": _c13_shards([0, 1], [0, 2], [B_LOWDIM], [1]) + _c13_shards([1], [0, 2], [B_LOWDIM], [0, 2]) + _c13_shards([1], [1, 4], [B_LOWDIM], [1]) + _c13_shards([1], [0, 2], [B_TET], [1])},
          timeout={"quick": 300, "thorough": 1200}, mem_gb=6,
          bounds=_C13_BOUNDS + "; quick: geometry kernel (its copy/assignment runs TopologyKernel's and ResourceManager's), copy construction and assignment onto a non-empty mesh, B_LOWDIM with one pending deleted edge; thorough (not measured as a whole): all 26 chunks for both mesh types with a pending deleted edge, geometry kernel also with no / a pending deleted vertex, + assignment onto an empty mesh and copy of a copy, + B_TET (geometry kernel, pending deleted edge)"),
